@@ -7,8 +7,13 @@
      (unsniffable -> 400 + -32700/null; otherwise 200 with the MethodResponse's json as body -- `null` for a
      notification),
    * server/src/server.rs handle_rpc_call: single = try Request, then Notification, then prepare_error
-     (InvalidRequest{id} -> -32600 with that id, else -32700/null); batch = Disabled gate, `Vec<&RawValue>`,
-     length gate, per entry Request / Notification / InvalidRequest{id} (else id null) -> -32600,
+     (InvalidRequest{id} -> -32600 with that id, else -32700/null); batch = the prologue and epilogue lists of
+     Gen/BatchGateGen.v, INTERPRETED here (run_gate / run_epilogue): which check comes first, what each rejects
+     with, how the length is compared with the limit and where an empty array gets its answer are read from the
+     source on every check by tools/translators/batch_gate.py (alphabet: Model/BatchGate.v); for the source now:
+     Disabled gate, `Vec<&RawValue>`, length gate (len > limit), per entry Request / Notification /
+     InvalidRequest{id} (else id null) -> -32600, after the loop: only notifications -> nothing, nothing appended
+     -> -32600/null, else the closed array,
    * server/src/middleware/rpc.rs RpcService::{call, batch, notification} (a notification runs NO handler; the batch
      loop returns the -32011 error as soon as an append fails, later entries are not executed),
    * core/src/server/rpc_module.rs callbacks (sync / async / blocking: `MethodResponse::response(id, rp, max)`;
@@ -22,10 +27,13 @@
    three attempts.  The model is the REPAIRED loop; `classify_old` / `classify_entry_old` keep the former reading
    for the witness lemma C02_seq_refuted_old.
 
+   No protocol constant is written here: the codes and messages of the library's error objects are the constants of
+   Gen/ErrorConstsGen.v (tools/translators/error_consts.py, from types/src/error.rs), through Model/ErrShape.v.
+
    User behaviour is a Section variable: `h method params : hres`.
      HOk raw        the handler's value serialises to `raw`
      HErr c m d     it returned Err(ErrorObject{code c, message m, data d})
-     HBadParams d   its params decoding failed (-32602 "Invalid params", data d = the serde message as a JSON string)
+     HBadParams d   its params decoding failed (ErrorCode::InvalidParams, data d = the serde message as a JSON string)
      HPanic         it panicked.  ONLY meaningful for KBlocking (spawn_blocking join error -> -32603 with the id);
                     a panic inside a sync/async handler unwinds the task that polls it and is outside the model:
                     every theorem about replies assumes `panics_only_blocking`.
@@ -38,8 +46,8 @@
    notifications after accept (C04), extensions / middleware layers, ping/pong, connection shutdown, HTTP bodies
    arriving in several frames and the method/content-type gate (C19), concurrency between the per-message tasks of
    one WS connection (each message is handled by its own task; replies of different messages may interleave). *)
-From JV Require Import Base.Bytes Base.Dec Base.Utf8 Json.Json Json.JsonSer Json.JsonParse Model.Wire Model.RespSize
-  Gen.SniffGen Gen.ErrorCodesGen.
+From JV Require Import Base.Bytes Base.Dec Base.Utf8 Json.Json Json.JsonSer Json.JsonParse Model.Wire Model.ErrShape
+  Model.RespSize Model.BatchGate Gen.SniffGen Gen.ErrorConstsGen Gen.BatchGateGen.
 Local Open Scope N_scope.
 
 (* ---------- array texts as element spans: Wire.v `array_elems` (Vec<&RawValue>; also what the sequence form of the
@@ -125,15 +133,81 @@ Definition log := list (bytes * option bytes).
 (* the library's fixed error objects *)
 Definition mk_err (code : Z) (msg : bytes) (data : option bytes) : errobj :=
   {| e_code := code; e_message := msg; e_data := data |}.
-Definition parse_error : errobj := mk_err parse_error_code b#"Parse error" None.
-Definition invalid_request : errobj := mk_err invalid_request_code b#"Invalid request" None.
-Definition method_not_found : errobj := mk_err method_not_found_code b#"Method not found" None.
-Definition internal_err : errobj := mk_err internal_error_code b#"Internal error" None.
-Definition invalid_params (d : option bytes) : errobj := mk_err invalid_params_code b#"Invalid params" d.
-Definition batches_not_supported : errobj :=
-  mk_err batches_not_supported_code b#"Batched requests are not supported by this server" None.
-Definition too_big_batch_request (n : N) : errobj :=
-  mk_err too_big_batch_request_code b#"The batch request was too large" (Some (exceeded_data n)).
+(* ErrorObject::from(ErrorCode::X): X.code(), X.message() *)
+Definition parse_error : errobj := mk_err parse_error_code parse_error_msg None.
+Definition invalid_request : errobj := mk_err invalid_request_code invalid_request_msg None.
+Definition method_not_found : errobj := mk_err method_not_found_code method_not_found_msg None.
+Definition internal_err : errobj := mk_err internal_error_code internal_error_msg None.
+Definition invalid_params (d : option bytes) : errobj := mk_err invalid_params_code invalid_params_msg d.
+(* ErrorObject::borrowed(BATCHES_NOT_SUPPORTED_CODE, BATCHES_NOT_SUPPORTED_MSG, None) *)
+Definition batches_not_supported : errobj := mk_err batches_not_supported_code batches_not_supported_msg None.
+(* reject_too_big_batch_request(n) *)
+Definition too_big_batch_request (n : N) : errobj := shape_err reject_too_big_batch_request_shape n.
+
+(* ---------- the batch prologue, interpreted (Gen/BatchGateGen.batch_gate) ---------- *)
+Inductive gate_result :=
+| GReject (e : errobj)          (* MethodResponse::error(Id::Null, e); nothing else happens *)
+| GAdmit (es : list bytes)      (* the entries go to RpcService::batch *)
+| GStuck.                       (* the list is not a program the source could be (Model/BatchGate.v) *)
+
+(* `bc` the configured BatchRequestConfig; `known`: max_len is bound (the `match batch_config` has been passed);
+   `elems`: the entries, once the array has been read *)
+Fixpoint run_gate_from (g : list gate_step) (bc : batchcfg) (known : bool) (elems : option (list bytes)) (body : bytes)
+  : gate_result :=
+  match g with
+  | [] => GStuck
+  | GDisabledRejects e :: g' =>
+    if known then GStuck else
+    match bc with
+    | BDisabled => GReject (fixed_err e)
+    | _ => run_gate_from g' bc true elems body
+    end
+  | GParseArray e :: g' =>
+    match elems with
+    | Some _ => GStuck
+    | None =>
+      match batch_elems body with
+      | None => GReject (fixed_err e)
+      | Some es => run_gate_from g' bc known (Some es) body
+      end
+    end
+  | GTooLong cmp e :: g' =>
+    match known, elems with
+    | true, Some es =>
+      match bc with
+      | BLimit l => if len_exceeds cmp (length es) l then GReject (shape_err e l) else run_gate_from g' bc known elems body
+      | _ => run_gate_from g' bc known elems body        (* Unlimited: usize::MAX *)
+      end
+    | _, _ => GStuck
+    end
+  | GEntriesMustBeObjects :: g' =>
+    match known, elems, g' with
+    | true, Some es, [] => GAdmit es
+    | _, _, _ => GStuck
+    end
+  end.
+
+Definition run_gate (g : list gate_step) (bc : batchcfg) (body : bytes) : gate_result :=
+  run_gate_from g bc false None body.
+
+(* ---------- the batch epilogue, interpreted (Gen/BatchGateGen.batch_epilogue) ---------- *)
+Inductive epilogue_result :=
+| FinSilent                     (* MethodResponse::notification() *)
+| FinJson (json : bytes).       (* MethodResponse::from_batch(..) *)
+
+(* buf: the builder's text after the loop ('[' and every appended response followed by ',') *)
+Fixpoint run_epilogue (rules : list epilogue_step) (buf : bytes) (got_notification : bool) : option epilogue_result :=
+  match rules with
+  | [] => None
+  | FAllNotificationsSilent :: r =>     (* is_empty(): self.result.len() <= 1 *)
+    if (Nat.leb (length buf) 1) && got_notification then Some FinSilent else run_epilogue r buf got_notification
+  | FEmptyIsInvalid e :: r =>           (* self.result.len() == 1 *)
+    match buf with
+    | [_] => Some (FinJson (error_response IdNull (fixed_err e)))
+    | _ => run_epilogue r buf got_notification
+    end
+  | FCloseArray :: _ => Some (FinJson (removelast buf ++ [x5d]))
+  end.
 
 (* MethodResponse kinds that decide what the WS transport does with the value handle_rpc_call returns *)
 Inductive rkind := RkCall | RkSub | RkBatch | RkNotif.
@@ -257,31 +331,24 @@ Fixpoint run_entries (t : transport) (c : scfg) (buf : bytes) (es : list bytes)
 Definition is_notification_entry (e : bytes) : bool :=
   match classify_entry e with ENotif => true | _ => false end.
 
-Definition over_limit (b : batchcfg) (n : nat) : option N :=
-  match b with
-  | BLimit l => if l <? N.of_nat n then Some l else None
-  | _ => None
-  end.
+(* a list that is not a program (GStuck / no epilogue rule applies): no frame the real server could send *)
+Definition stuck_resp : mresp := {| m_json := []; m_kind := RkCall; m_direct := []; m_log := [] |}.
 
 Definition rpc_batch (t : transport) (c : scfg) (body : bytes) : mresp :=
-  match sc_batch c with
-  | BDisabled => plain (error_response IdNull batches_not_supported)
-  | bc =>
-    match batch_elems body with
-    | None => plain (error_response IdNull parse_error)
-    | Some es =>
-      match over_limit bc (length es) with
-      | Some l => plain (error_response IdNull (too_big_batch_request l))
-      | None =>
-        let '(buf, overflow, direct, lg) := run_entries t c batch_new es in
-        if overflow then
-          {| m_json := too_big_batch (sc_max_response c); m_kind := RkCall; m_direct := direct; m_log := lg |}
-        else if (Nat.leb (length buf) 1) && existsb is_notification_entry es then
-          {| m_json := null_text; m_kind := RkNotif; m_direct := direct; m_log := lg |}
-        else
-          {| m_json := finish buf; m_kind := RkBatch; m_direct := direct; m_log := lg |}
+  match run_gate batch_gate (sc_batch c) body with
+  | GReject e => plain (error_response IdNull e)
+  | GStuck => stuck_resp
+  | GAdmit es =>
+    (* RpcService::batch *)
+    let '(buf, overflow, direct, lg) := run_entries t c batch_new es in
+    if overflow then
+      {| m_json := too_big_batch (sc_max_response c); m_kind := RkCall; m_direct := direct; m_log := lg |}
+    else
+      match run_epilogue batch_epilogue buf (existsb is_notification_entry es) with
+      | Some FinSilent => {| m_json := null_text; m_kind := RkNotif; m_direct := direct; m_log := lg |}
+      | Some (FinJson j) => {| m_json := j; m_kind := RkBatch; m_direct := direct; m_log := lg |}
+      | None => stuck_resp
       end
-    end
   end.
 
 Definition handle_rpc_call (t : transport) (c : scfg) (is_single : bool) (body : bytes) : mresp :=
